@@ -271,6 +271,9 @@ func (s *stack) push(p *Path) {
 		parent.Next = p
 		p.Parent = parent
 	}
+	if s.count == len(s.steps) {
+		s.steps = append(s.steps, nil)
+	}
 	s.steps[s.count] = p
 	s.count++
 }
